@@ -4,7 +4,7 @@
    the probe atoms [atoms]; all laws hold for every universe and every fuel, as
    EQUALITIES of result trees (fields, field kinds, closedness, scalar constraints,
    error status at every path).  Only statements, [exact], Print Assumptions. *)
-From Verif Require Import Core.Syntax Core.Eval Core.Laws.
+From Verif Require Import Core.Syntax Core.Eval Core.Laws Core.Congr.
 From Coq Require Import List Permutation.
 Import ListNotations.
 
@@ -91,6 +91,30 @@ Theorem C01_eval_decl_perm : forall labs atoms fuel r ds ds' es cs,
   evalNode labs atoms fuel (mkConj r (EStruct ds' :: es) :: cs).
 Proof. exact eval_decl_perm. Qed.
 Print Assumptions C01_eval_decl_perm.
+
+(* the laws apply at any depth: contextual equivalence is preserved by & and by the value
+   position of a field *)
+Theorem C01_veq_and_congr : forall labs atoms a a' b,
+  veq labs atoms a a' -> veq labs atoms (EAnd a b) (EAnd a' b).
+Proof. exact veq_and_congr. Qed.
+Print Assumptions C01_veq_and_congr.
+
+Theorem C01_veq_field_congr : forall labs atoms v v' ds1 l k ds2,
+  veq labs atoms v v' -> embed_free (ds1 ++ (HField l k, v) :: ds2) = true ->
+  veq labs atoms (EStruct (ds1 ++ (HField l k, v) :: ds2)) (EStruct (ds1 ++ (HField l k, v') :: ds2)).
+Proof. exact veq_field_congr. Qed.
+Print Assumptions C01_veq_field_congr.
+
+Theorem C01_veq_trans : forall labs atoms a b c, veq labs atoms a b -> veq labs atoms b c -> veq labs atoms a c.
+Proof. exact veq_trans. Qed.
+Print Assumptions C01_veq_trans.
+
+Theorem C01_veq_nested_decl_perm : forall labs atoms l k ds ds' pre post,
+  embed_free ds = true -> embed_free ds' = true -> Laws.seq ds ds' ->
+  embed_free (pre ++ (HField l k, EStruct ds) :: post) = true ->
+  veq labs atoms (EStruct (pre ++ (HField l k, EStruct ds) :: post)) (EStruct (pre ++ (HField l k, EStruct ds') :: post)).
+Proof. exact veq_nested_decl_perm. Qed.
+Print Assumptions C01_veq_nested_decl_perm.
 
 (* non-vacuity: a non-trivial program, evaluated in two rearrangements *)
 Definition ex_labs := [LReg 0%N; LReg 1%N; LReg 9%N].
